@@ -167,6 +167,7 @@ func (sk *SpaceKeeper) spacePlotter() {
 
 	for {
 		for !sk.queue.Empty() {
+			verifGate(sk, "queue.nonempty")
 			select {
 			case <-sk.quit:
 				wg.Wait()
